@@ -11,7 +11,11 @@ class URIDict(MutableMapping):
     """
 
     def normalize(self, uri):
-        return urlsplit(uri).geturl()
+        try:
+            return urlsplit(uri).geturl()
+        except ValueError:
+            # Not parseable as a URI (e.g. "http://["): use it as it is.
+            return uri
 
     def __init__(self, *args, **kwargs):
         self.store = dict()
